@@ -340,7 +340,7 @@ def parse_modifies(engine, c, pre, ctx):
 def verify_function(engine, c):
     """Symbolically execute the real body of c.func and emit its obligations into engine.obligs.
     Returns a summary dict."""
-    fi = engine.repo.func(c.func)
+    fi = engine.repo.func(c.func.split("#")[0])
     if fi is None:
         raise OutsideSubset(f"function {c.func} not found in the repository")
     engine.verifying = fi.fq
@@ -360,7 +360,7 @@ def verify_function(engine, c):
         raise OutsideSubset(f"precondition of {c.func} is unsatisfiable (vacuous contract)")
     pre = st
     paths = 0
-    fq = fi.fq
+    fq = c.func
     outcomes = []
     for st1, out in engine.exec_block(fi.node.body, st):
         paths += 1
